@@ -39,6 +39,105 @@ def check_unsat(axioms, hyps, goal, timeout_ms=20000, use_cvc5=True, seed=7):
     return "undecided", dt, f"z3 unknown ({reason})"
 
 
+def _index_terms(fs):
+    """String-sorted index terms of array selects/stores occurring in the formulas (instantiation candidates)."""
+    seen, out, todo = set(), [], list(fs)
+    while todo:
+        f = todo.pop()
+        if f.get_id() in seen:
+            continue
+        seen.add(f.get_id())
+        if z3.is_quantifier(f):
+            continue
+        if z3.is_app(f):
+            k = f.decl().kind()
+            if k in (z3.Z3_OP_SELECT, z3.Z3_OP_STORE) and f.num_args() >= 2 and f.arg(1).sort() == z3.StringSort():
+                t = f.arg(1)
+                if t.get_id() not in {x.get_id() for x in out} and not z3.is_var(t):
+                    out.append(t)
+            todo.extend(f.children())
+    return out
+
+
+def _split_q(fs):
+    g, q = [], []
+    for f in fs:
+        if z3.is_and(f) and not z3.is_quantifier(f):
+            a, b = _split_q(f.children())
+            g += a
+            q += b
+        elif z3.is_quantifier(f):
+            q.append(f)
+        else:
+            g.append(f)
+    return g, q
+
+
+def _instances(q, terms):
+    out = []
+    if not (z3.is_quantifier(q) and q.is_forall() and q.num_vars() == 1):
+        return out
+    for t in terms:
+        if t.sort() == q.var_sort(0):
+            out.append(z3.substitute_vars(q.body(), t))
+    return out
+
+
+def check_vc(axioms, hyps, goal, timeout_ms=20000, seed=7):
+    """Discharge  axioms /\\ hyps => goal  when hyps/axioms contain universally quantified facts.
+
+    1. quantifier-free attempt: quantified facts are replaced by their ground instances at the array index terms of
+       the VC.  unsat => proved (fewer hypotheses were enough).  sat => only a SHAPE (the model may violate an
+       uninstantiated instance): go on.
+    2. full attempt with the quantifiers.  unsat => proved.  sat => refuted.
+    3. if the full attempt is unknown and step 1 gave a model: status 'shape' (candidate refutation; the caller must
+       confirm it natively before it counts).  Otherwise undecided.
+    """
+    g_ax, q_ax = _split_q(list(axioms))
+    g_h, q_h = _split_q(list(hyps))
+    neg = z3.Not(goal)
+    qs = q_ax + q_h
+    t0 = time.time()
+    shape = None
+    terms = _index_terms(g_ax + g_h + [neg])
+    s = z3.Solver()
+    s.set("timeout", min(timeout_ms, 10000))
+    s.set("random_seed", seed)
+    s.add(*g_ax)
+    s.add(*g_h)
+    for q in qs:
+        s.add(*_instances(q, terms))
+    goal_has_q = any(z3.is_quantifier(x) for x in _subterms_q(neg))
+    if not goal_has_q:
+        s.add(neg)
+        r = s.check()
+        if r == z3.unsat:
+            return "proved", time.time() - t0, "z3 unsat (ground instances)"
+        if r == z3.sat:
+            shape = s.model()
+            if not qs:
+                return "refuted", time.time() - t0, shape
+    st, dt, info = check_unsat(axioms, hyps, goal, timeout_ms if shape is None else min(timeout_ms, 3000), use_cvc5=shape is None, seed=seed)
+    if st in ("proved", "refuted"):
+        return st, time.time() - t0, info
+    if shape is not None:
+        return "shape", time.time() - t0, shape
+    return st, time.time() - t0, info
+
+
+def _subterms_q(f):
+    seen, todo = set(), [f]
+    while todo:
+        x = todo.pop()
+        if x.get_id() in seen:
+            continue
+        seen.add(x.get_id())
+        yield x
+        if z3.is_quantifier(x):
+            continue
+        todo.extend(x.children())
+
+
 def cvc5_check(smt2: str, timeout_ms: int):
     """Run the cvc5 binary on an SMT-LIB dump.  Only `unsat` is ever used as a verdict."""
     t = time.time()
